@@ -175,7 +175,8 @@ func ReadIgnoreAnnotations(cfg *config.Config, pass *analysis.Pass) *util.Ignore
 // Example: var x int // @ignore CODE1
 func findInlineNode(file *ast.File, comment *ast.Comment, fset *token.FileSet) (start token.Pos, end token.Pos, found bool) {
 	commentPos := comment.Pos()
-	commentLine := fset.Position(commentPos).Line
+	// physical lines: a //line directive must not move the comment away from its code (nor out of the file)
+	commentLine := fset.PositionFor(commentPos, false).Line
 
 	// Binary search to find the declaration containing the comment
 	idx := sort.Search(len(file.Decls), func(i int) bool {
@@ -186,7 +187,7 @@ func findInlineNode(file *ast.File, comment *ast.Comment, fset *token.FileSet) (
 	// search above lands on the following declaration (if any): it is inline with the previous
 	// declaration when that one ends on the comment's line
 	if idx > 0 && (idx >= len(file.Decls) || commentPos < file.Decls[idx].Pos()) {
-		if fset.Position(file.Decls[idx-1].End()).Line == commentLine {
+		if fset.PositionFor(file.Decls[idx-1].End(), false).Line == commentLine {
 			if fileContent := fset.File(commentPos); fileContent != nil {
 				return fileContent.LineStart(commentLine), comment.End(), true
 			}
@@ -218,7 +219,7 @@ func findInlineNode(file *ast.File, comment *ast.Comment, fset *token.FileSet) (
 			return false
 		}
 
-		nodeEndLine := fset.Position(n.End()).Line
+		nodeEndLine := fset.PositionFor(n.End(), false).Line
 
 		// Check if this node ends on the same line as the comment
 		if nodeEndLine == commentLine {
